@@ -184,7 +184,9 @@ theorem finalize_ok (pg : Page) (s : St) (h : (finalize pg s).exn = none) : OutO
   · simp only [hc, Bool.not_true, Bool.false_eq_true, if_false] at h ⊢
     have hb : 100 ≤ code ∧ code ≤ 599 := valid_bounds code hc
     split
-    · exact ⟨_, rfl, hb⟩
+    · split
+      · split <;> exact ⟨_, rfl, hb⟩
+      · exact ⟨_, rfl, hb⟩
     · split
       · rename_i h1 h2; simp [h1, h2] at h
       · split <;> exact ⟨_, rfl, hb⟩
@@ -476,7 +478,9 @@ theorem finalize_out (pg : Page) (s : St) (h : (finalize pg s).exn = none) :
   | true =>
     simp only [hc, Bool.not_true, Bool.false_eq_true, if_false] at h ⊢
     split
-    · rfl
+    · split
+      · split <;> rfl
+      · rfl
     · split
       · rename_i h1 h2; simp [h1, h2] at h
       · split <;> rfl
@@ -722,7 +726,11 @@ theorem C01_error_hook_redirect_status (pg : Page) (s : St) (c : Nat)
   unfold finalize
   simp only [hcode, hv, Bool.not_true, Bool.false_eq_true, if_false]
   split
-  · exact ⟨rfl, rfl⟩
+  · split
+    · split
+      · rename_i hif; simp [BodyK.iterFails] at hif
+      · exact ⟨rfl, rfl⟩
+    · exact ⟨rfl, rfl⟩
   · split
     · rename_i hif; simp [BodyK.iterFails] at hif
     · split <;> exact ⟨rfl, rfl⟩
